@@ -1,6 +1,8 @@
 """Which properties are claimed, at which level; everything else is listed not_applicable with a reason."""
 
-TB = "rustc's front end (types, layouts, const eval, MIR at mir-opt-level 0) for x86_64 little-endian; mb2facts + mb2rules; std contracts listed in DESIGN.md App. C; hand-written oracle tables in mb2rules/spec.py"
+TB = ("rustc's front end (types, layouts, const eval, MIR at mir-opt-level 0, incl. the MIR of the small std combinators that are spliced into their "
+      "callers) for x86_64 little-endian; mb2facts + mb2rules incl. the normal-form passes of DESIGN.md §17 (INLINE/THREAD/gated phi: behaviour-preserving "
+      "rewrites of the analysed MIR); std contracts listed in DESIGN.md App. C; hand-written oracle tables in mb2rules/spec.py")
 
 CLAIMED = {
     "C20": {
